@@ -24,7 +24,7 @@ func showRels(l []j.Rel) string {
 	return s + "]"
 }
 
-var c16Names = []string{"", "a", "b", "ab", "bc", "c", "a_b"}
+var c16Names = []string{"", "a", "b", "ab", "bc", "c", "a_b", "A", "Ab"}
 
 func c16Laws(x *mc.Exec) {
 	n := len(c16Names)
@@ -471,7 +471,7 @@ func c16Underscore(x *mc.Exec) {
 func init() {
 	Register(&Prop{
 		ID: "C16",
-		Rule: "Engine A: (a) ALL Rel values with FromType, FromName, ToType, ToName in {\"\",a,b,ab,bc,c,a_b} (names whose concatenations and _-joined keys collide) x 4 cardinality pairs = 9604 values, laws asserted directly (involution, idempotence, range, one-way untouched, symmetric Normalize and String for two-way relationships with four non-empty names; self-inverse only with equal cardinalities); (b) every coherent schema over types {a,ab}(,b) and relationship names {x,bx}(,a_x) built slot by slot (absent / one-way to any type / two-way with any later free slot / self-inverse), in three shapes (two types; a single type; halves whose cardinality fields were filled in independently, as BuildType does - pairs then identified by names), every order of AddType, and every map-iteration order of one loop instance inside Rels() (deviation bound 1). (c) one coherent schema built through AddType/AddRel/AddTwoWayRel in every dependency-respecting order of its 5 construction steps with Rels() called after every subset of the steps; the final listing must equal the one of a schema built in one go. Non-trivial = two-way relationship value / schema with at least one two-way pair / every incremental build",
+		Rule: "Engine A: (a) ALL Rel values with FromType, FromName, ToType, ToName in {\"\",a,b,ab,bc,c,a_b,A,Ab} (names whose concatenations and _-joined keys collide or that differ by letter case only) x 4 cardinality pairs = 26244 values, laws asserted directly (involution, idempotence, range, one-way untouched, symmetric Normalize and String for two-way relationships with four non-empty names; self-inverse only with equal cardinalities); (b) every coherent schema over types {a,ab}(,b) and relationship names {x,bx}(,a_x) built slot by slot (absent / one-way to any type / two-way with any later free slot / self-inverse), in three shapes (two types; a single type; halves whose cardinality fields were filled in independently, as BuildType does - pairs then identified by names), every order of AddType, and every map-iteration order of one loop instance inside Rels() (deviation bound 1). (c) one coherent schema built through AddType/AddRel/AddTwoWayRel in every dependency-respecting order of its 5 construction steps with Rels() called after every subset of the steps; the final listing must equal the one of a schema built in one go. Non-trivial = two-way relationship value / schema with at least one two-way pair / every incremental build",
 		Assumptions: []string{"relationships in the symmetric laws have non-empty FromType, FromName, ToType, ToName (what a schema can hold)", "for pairs whose halves disagree on the cardinality fields, which half's cardinalities the listing shows is not judged"},
 		Harnesses: []Harness{
 			{Name: "C16/laws", Body: c16Laws, ShardDepth: 1},
